@@ -26,6 +26,7 @@ import (
 	"github.com/lestrrat-go/jwx/v2/jws"
 	v2 "github.com/nuts-foundation/nuts-node/vcr/pe/schema/v2"
 	"strings"
+	"time"
 
 	"github.com/PaesslerAG/jsonpath"
 	"github.com/dlclark/regexp2"
@@ -34,6 +35,10 @@ import (
 
 // ErrUnsupportedFilter is returned when a filter uses unsupported features.
 var ErrUnsupportedFilter = errors.New("unsupported filter")
+
+// regexMatchTimeout is the maximum time matching a single value against a filter pattern may take.
+// Exceeding it results in an error, like an invalid pattern does.
+const regexMatchTimeout = time.Second
 
 // ParsePresentationDefinition validates the given JSON and parses it into a PresentationDefinition.
 // It returns an error if the JSON is invalid or doesn't match the JSON schema for a PresentationDefinition.
@@ -540,6 +545,8 @@ func matchFilter(filter Filter, value interface{}) (bool, interface{}, error) {
 		if err != nil {
 			return false, nil, err
 		}
+		// the pattern comes from the (remote) verifier: bound the time a match may take (catastrophic backtracking)
+		re.MatchTimeout = regexMatchTimeout
 		match, err := re.FindStringMatch(value.(string))
 		if err != nil {
 			return false, nil, err
